@@ -20,6 +20,7 @@ import (
 	"fmt"
 	"log"
 	"reflect"
+	"strings"
 	"sync"
 	"time"
 
@@ -137,4 +138,20 @@ func warnUnplaceableTimestamp(tsProp string) {
 			"events are being dropped. Declare WITH (TIMESTAMP=%q, TIMEUNIT='ms'|'s'|'us'|'ns')",
 			tsProp, tsProp)
 	})
+}
+
+// encodeKeyPart encodes one GROUP BY value for a per-key window map whose parts
+// are joined with "|". Ordinary values keep their text; a "|" or "\" inside a
+// value is escaped so it cannot shift into a neighbouring column, and NULL/missing
+// gets the marker `\N` (not producible by escaping) instead of colliding with "".
+func encodeKeyPart(val any, present bool) string {
+	if !present || val == nil {
+		return `\N`
+	}
+	s := cast.ToString(val)
+	if strings.ContainsAny(s, `|\`) {
+		s = strings.ReplaceAll(s, `\`, `\\`)
+		s = strings.ReplaceAll(s, "|", `\|`)
+	}
+	return s
 }
